@@ -43,10 +43,14 @@ impl AckFrequencyState {
         // Use the peer's max_ack_delay if no custom max_ack_delay was provided in the config
         let min_ack_delay =
             Duration::from_micros(peer_params.min_ack_delay.map_or(0, |x| x.into()));
+        // The peer's `min_ack_delay` may legitimately exceed both the RTT and
+        // `MIN_AUTOMATIC_ACK_DELAY` (it is only required to be at most its `max_ack_delay`), so
+        // make sure the upper bound is never below the lower one: `clamp` panics otherwise.
+        let upper_bound = rtt.max(MIN_AUTOMATIC_ACK_DELAY).max(min_ack_delay);
         config
             .max_ack_delay
             .unwrap_or(self.peer_max_ack_delay)
-            .clamp(min_ack_delay, rtt.max(MIN_AUTOMATIC_ACK_DELAY))
+            .clamp(min_ack_delay, upper_bound)
     }
 
     /// Returns the `max_ack_delay` for the purposes of calculating the PTO
@@ -153,3 +157,32 @@ const MAX_RTT_ERROR: f32 = 0.2;
 /// extension and an explicit max ACK delay is not configured.
 // Keep in sync with `AckFrequencyConfig::max_ack_delay` documentation
 const MIN_AUTOMATIC_ACK_DELAY: Duration = Duration::from_millis(25);
+
+#[cfg(test)]
+mod tests {
+    use super::*;
+
+    #[test]
+    fn candidate_max_ack_delay_with_large_peer_min_ack_delay() {
+        // A peer may advertise a `min_ack_delay` above both the RTT and `MIN_AUTOMATIC_ACK_DELAY`,
+        // as long as it doesn't exceed its `max_ack_delay`
+        let state = AckFrequencyState::new(Duration::from_millis(30));
+        let mut peer_params = TransportParameters::default();
+        peer_params.min_ack_delay = Some(VarInt::from_u32(26_000));
+        let config = AckFrequencyConfig::default();
+        assert_eq!(
+            state.candidate_max_ack_delay(Duration::from_millis(10), &config, &peer_params),
+            Duration::from_millis(26)
+        );
+        // The usual bounds still apply otherwise
+        peer_params.min_ack_delay = Some(VarInt::from_u32(1_000));
+        assert_eq!(
+            state.candidate_max_ack_delay(Duration::from_millis(10), &config, &peer_params),
+            Duration::from_millis(25)
+        );
+        assert_eq!(
+            state.candidate_max_ack_delay(Duration::from_millis(40), &config, &peer_params),
+            Duration::from_millis(30)
+        );
+    }
+}
